@@ -14,11 +14,18 @@ pub struct NodeSpec {
     /// 0 = the node does not advertise sharding (Cassandra-like); otherwise SCYLLA_NR_SHARDS
     pub nr_shards: u16,
     pub msb_ignore: u8,
+    /// per-node override of `ServerOptions.metadata_id_ext` (None = use the cluster-wide option);
+    /// for mixed-version clusters
+    pub metadata_id_ext: Option<bool>,
 }
 
 impl NodeSpec {
     pub fn new(idx: usize, dc: &str, rack: &str, tokens: Vec<i64>, nr_shards: u16) -> NodeSpec {
-        NodeSpec { host_id: host_id_for(idx), dc: dc.into(), rack: rack.into(), tokens, nr_shards, msb_ignore: 12 }
+        NodeSpec { host_id: host_id_for(idx), dc: dc.into(), rack: rack.into(), tokens, nr_shards, msb_ignore: 12, metadata_id_ext: None }
+    }
+    pub fn with_metadata_id_ext(mut self, on: bool) -> NodeSpec {
+        self.metadata_id_ext = Some(on);
+        self
     }
 }
 
@@ -630,7 +637,7 @@ pub fn supported_options(spec: &ClusterSpec, node: usize, shard: u16) -> BTreeMa
     if o.tablets_ext {
         m.insert("TABLETS_ROUTING_V1".into(), vec!["".into()]);
     }
-    if o.metadata_id_ext {
+    if n.metadata_id_ext.unwrap_or(o.metadata_id_ext) {
         m.insert("SCYLLA_USE_METADATA_ID".into(), vec!["".into()]);
     }
     if let Some(c) = o.rate_limit_error {
